@@ -124,8 +124,14 @@ def isFnLit : Node → Bool
   | _ => false
 
 /-- a function literal reading `name` from outside (not one of its parameters) -/
+def isLoopOver (name : String) : Node → Bool
+  | .forE (.inf op (.ident n) _) _ => n == name && (op == "ASSIGN" || op == "DEFINE")
+  | _ => false
+
+/-- a function literal reading `name` from outside: not one of its parameters, and not the variable of a counted loop
+of its own (the function that CONTAINS the loop is not a callee reading the loop's variable) -/
 def fnMentionsFree (name : String) : Node → Bool
-  | .fn _ ps _ _ _ body => !ps.contains name && mentions [name] body
+  | .fn _ ps _ _ _ body => !ps.contains name && !(subnodes body).any (isLoopOver name) && mentions [name] body
   | _ => false
 
 def loopVariableInvisibleToCallee (asts : List Node) : Bool :=
